@@ -330,9 +330,13 @@ func (g *Gen) buildTx() *Step {
 		}
 		ts.Msgs = append(ts.Msgs, bz)
 	}
-	if g.R.Chance(p.PGas) {
-		gas, _ := g.W.Chain.DryRunGas(msgs)
-		if gas > 0 {
+	if g.R.Chance(p.PGas) && g.W.inBlock {
+		// the client estimates gas first (a recorded step), then the scheduler draws a limit around it
+		sim := *ts
+		if !g.emit(&Step{Kind: KSim, Tx: &sim}) {
+			return nil
+		}
+		if gas := g.W.LastSimGas; gas > 0 {
 			ts.Gas = uint64(g.R.Int63n(int64(gas)+int64(gas)/10+1)) + 1
 		}
 	}
